@@ -1,79 +1,231 @@
-import MqttVerif.Conn.Lemmas.Basic
+import MqttVerif.Conn.Lemmas.Limit
 /-!
-# C14 — Maximum Packet Size is honoured in both directions (first instalment)
+# C14 — Maximum Packet Size is honoured in both directions
+
+* `C14_emitted_v5_within_limit` — for EVERY configuration, state and API call: every **v5.0**
+  packet in a `RequestSendPacket` event fits the peer's limit that is in force after the call
+  (a received CONNECT / CONNACK sets the limit before anything is sent; `notify_closed` resets
+  it and sends nothing).  Covers direct sends, automatic responses, stored retransmissions and
+  alias-rewritten publishes.
+* `C14_emitted_within_limit` — exactly the driver's monitor `Mon.sentSizesWithin` (every packet
+  sent, of any version) on a v5.0 connection, for parsers that return packets of the version
+  they were asked to parse; `C14_emitted_within_limit_full_false`: without the parser hypothesis
+  the model sends an unchecked v3.1.1 PUBCOMP.
+* `C14_limit_is_peers`, `C14_recv_oversize`, `C14_oversize_stored_*`.
 -/
-set_option linter.unusedSimpArgs false
-set_option linter.unusedVariables false
 namespace MqttVerif.Conn
 open MqttVerif
 
-/-- every packet requested by `send_stored` fits the peer's limit; oversize entries are
-    neither sent nor kept (induction over the store, any length) -/
-theorem C14_sendStored_within_limit (c : C) (st : List (Nat × Pkt)) :
-    (sendStoredLoop c st).1.s.mpsSend = c.s.mpsSend ∧ (sendStoredLoop c st).1.cfg = c.cfg ∧
-    ∃ t, (sendStoredLoop c st).1.ev = c.ev ++ t ∧
-      (∀ e ∈ t, ∀ p rel, e = .send p rel → p.sz c.cfg.pw ≤ c.s.mpsSend) ∧
-      (∀ ip ∈ (sendStoredLoop c st).2, ip.2.sz c.cfg.pw ≤ c.s.mpsSend) := by
-  induction st generalizing c with
-  | nil => simp [sendStoredLoop]
-  | cons ip rest ih =>
-    obtain ⟨id, p⟩ := ip
+/-- C14 (1), unconditional form: every v5.0 packet requested for sending is within the limit. -/
+theorem C14_emitted_v5_within_limit (cfg : Cfg) (s : St) (op : Op) :
+    ∀ p r, Ev.send p r ∈ (step cfg s op).ev → p.ver = 5 → p.sz cfg.pw ≤ (step cfg s op).s.mpsSend := by
+  intro p r hm hv
+  have h := (step_WS (B := True) cfg s op (fun _ => trivial) (fun _ _ _ _ _ _ _ _ => trivial)).2 (EvAll_nil _)
+  rcases h.h _ hm with h | h
+  · exact h
+  · exact absurd hv h.1
+
+/-- the L1 parser returns a packet of the version it was asked to parse -/
+def ParserKeepsVersion (op : Op) (v : Nat) : Prop :=
+  ∀ inp parse, op = .recv inp parse → ∀ fh data p, parse v fh data = .ok p → p.ver = v
+
+theorem sentSizesWithin_of_W {pw L : Nat} {l : List Ev} (h : EvAll (W False L pw) l) :
+    Mon.sentSizesWithin pw L l = true := by
+  simp only [Mon.sentSizesWithin, List.all_eq_true]
+  intro e he
+  have := h.h e he
+  cases e <;> simp_all [W]
+
+/-- C14 (1), the driver's monitor: on a v5.0 connection every packet handed to the application
+    for sending fits the peer's Maximum Packet Size (limit after the call). -/
+theorem C14_emitted_within_limit (cfg : Cfg) (s : St) (op : Op) (hv : s.ver = 5)
+    (hp : ParserKeepsVersion op 5) :
+    Mon.sentSizesWithin cfg.pw (step cfg s op).s.mpsSend (step cfg s op).ev = true := by
+  refine sentSizesWithin_of_W ((step_WS (B := False) cfg s op (fun h => h hv) ?_).2 (EvAll_nil _))
+  intro inp parse ho fh data p hpar hne
+  exact hne (hp inp parse ho fh data p (hv ▸ hpar))
+
+/-- the statement without the parser hypothesis -/
+def C14_emitted_within_limit_full : Prop :=
+  ∀ (cfg : Cfg) (s : St) (op : Op), s.ver = 5 →
+    Mon.sentSizesWithin cfg.pw (step cfg s op).s.mpsSend (step cfg s op).ev = true
+
+namespace C14ex
+def cfg : Cfg := { role := .server, pw := 2 }
+/-- established v5.0 connection, peer limit 3, automatic responses on -/
+def s3 : St := { St.init cfg 5 with status := .connected, mpsSend := 3, autoPub := true }
+/-- a parser that answers a v3.1.1 PUBREL although version 5 was requested -/
+def badParse : Nat → Nat → List Nat → Except Nat Pkt := fun _ _ _ => .ok { ver := 4, kind := .pubrel, pid := some 1 }
+def goodParse : Nat → Nat → List Nat → Except Nat Pkt := fun v _ _ => .ok { ver := v, kind := .pubrel, pid := some 1 }
+def pubrelFrame : List Nat := [0x62, 2, 0, 1]
+
+example : (step cfg s3 (.recv pubrelFrame badParse)).ev =
+    [.send (mkAck cfg 4 .pubcomp 1) none, .recv { ver := 4, kind := .pubrel, pid := some 1 }] := by decide
+/-- with a version-preserving parser the 5-byte PUBCOMP is refused (limit 3) -/
+example : (step cfg s3 (.recv pubrelFrame goodParse)).ev =
+    [.error eTooLarge, .recv { ver := 5, kind := .pubrel, pid := some 1 }] := by decide
+example : s3.ver = 5 ∧ ParserKeepsVersion (.recv pubrelFrame goodParse) 5 := by
+  refine ⟨rfl, ?_⟩
+  intro inp parse ho fh data p hp
+  cases ho
+  simp only [goodParse, Except.ok.injEq] at hp
+  rw [← hp]
+end C14ex
+
+theorem C14_emitted_within_limit_full_false : ¬ C14_emitted_within_limit_full := by
+  intro h
+  exact absurd (h C14ex.cfg C14ex.s3 (.recv C14ex.pubrelFrame C14ex.badParse) rfl) (by decide)
+
+
+/-! ## (4) the limit is the peer's -/
+
+/-- C14 (4): `mpsSend` is written only by `notify_closed` (reset to "no limit") and by a received
+    CONNECT / a received CONNACK with reason code 0 (value of the last property 39, if any). -/
+theorem C14_limit_is_peers (cfg : Cfg) (s : St) (op : Op) :
+    (step cfg s op).s.mpsSend = s.mpsSend ∨
+    (op = .closed ∧ (step cfg s op).s.mpsSend = noLimit) ∨
+    (∃ inp parse fh data v p, op = .recv inp parse ∧
+      (Framing.feed s.pb inp).2.1 = some (.complete fh data) ∧ parse v fh data = .ok p ∧
+      (fh / 16 = 1 ∨ (fh / 16 = 2 ∧ p.rc = some 0)) ∧
+      (step cfg s op).s.mpsSend = mpsOf p.props s.mpsSend) := by
+  cases op with
+  | send p => exact .inl (send_mps _ _)
+  | recv inp parse =>
+    rcases recv_limit { cfg := cfg, s := s } inp parse with h | ⟨fh, data, v, hf, h | ⟨p, hp, ht, hm⟩⟩
+    · exact .inl h
+    · exact .inl h
+    · exact .inr (.inr ⟨inp, parse, fh, data, v, p, rfl, hf, hp, ht, hm⟩)
+  | timer k => exact .inl (notifyTimerFired_fr _ k).2
+  | closed => exact .inr (.inl ⟨rfl, notifyClosed_mps _⟩)
+  | setInterval d => exact .inl (setPingreqSendInterval_mps _ _)
+  | setFlag f b => exact .inl (setFlag_mps s f b)
+  | setRespTimeout ms => exact .inl rfl
+  | acquire => exact .inl rfl
+  | register id => exact .inl rfl
+  | release id => exact .inl (releaseIfUsed_mps _ _)
+  | erase id => exact .inl (eraseStoredPublish_mps _ _)
+  | restoreHandled ids => exact .inl rfl
+  | restorePackets ps => exact .inl (restorePackets_fr _ _).2
+
+/-! ## (3) a received packet larger than the announced maximum -/
+
+theorem cancelTimers_tail (c : C) :
+    ∃ t, (cancelTimers c).ev = c.ev ++ t ∧ ∀ e ∈ t, ∃ k, e = Ev.timerCancel k := by
+  cases h1 : c.s.sendSet <;> cases h2 : c.s.recvSet <;> cases h3 : c.s.respSet <;>
+    simp [cancelTimers, h1, h2, h3]
+
+/-- C14 (3): a complete frame larger than the locally announced maximum is not delivered (no
+    `NotifyPacketReceived` is added); when connected and the DISCONNECT fits the peer's limit the
+    call appends: timer cancels, DISCONNECT 0x95 (Packet too large), close, error. -/
+theorem C14_recv_oversize (c : C) (fh : Nat) (data : List Nat) (parse : Nat → Except Nat Pkt)
+    (hbig : totalSize data.length > c.s.mpsRecv) :
+    (∀ p, Ev.recv p ∈ (processRecvPacket c fh data parse).ev → Ev.recv p ∈ c.ev) ∧
+    (c.s.status = .connected → sizeOk c (mkV5Disconnect 0x95) = true →
+      ∃ t, (∀ e ∈ t, ∃ k, e = Ev.timerCancel k) ∧
+        (processRecvPacket c fh data parse).ev =
+          c.ev ++ t ++ [.send (mkV5Disconnect 0x95) none, .close, .error 0x95]) := by
+  have hE : eTooLarge = 0x95 := rfl
+  by_cases hc : c.s.status = .connected <;> by_cases hz : sizeOk c (mkV5Disconnect 0x95) = true
+  · obtain ⟨t, ht, htc⟩ := cancelTimers_tail { c with s := { c.s with status := .disconnected } }
+    have hev : (processRecvPacket c fh data parse).ev =
+        c.ev ++ t ++ [.send (mkV5Disconnect 0x95) none, .close, .error 0x95] := by
+      simp [processRecvPacket, hbig, v5DisconnectOrClose, psV5Disconnect, hc, hz, hE, ht]
+    refine ⟨fun p hp => ?_, fun _ _ => ⟨t, htc, hev⟩⟩
+    rw [hev, List.mem_append, List.mem_append] at hp
+    rcases hp with (hp | hp) | hp
+    · exact hp
+    · obtain ⟨k, hk⟩ := htc _ hp
+      exact absurd hk (by simp)
+    · exact absurd hp (by simp)
+  · obtain ⟨t, ht, htc⟩ := cancelTimers_tail { c with s := { c.s with status := .disconnected } }
+    refine ⟨fun p hp => ?_, fun _ h => absurd h hz⟩
+    simp [processRecvPacket, hbig, v5DisconnectOrClose, hc, hz, hE, ht] at hp
+    rcases hp with hp | hp
+    · exact hp
+    · obtain ⟨k, hk⟩ := htc _ hp
+      exact absurd hk (by simp)
+  · refine ⟨fun p hp => ?_, fun h => absurd h hc⟩
+    simpa [processRecvPacket, hbig, v5DisconnectOrClose, psV5Disconnect, hc, hz, hE] using hp
+  · refine ⟨fun p hp => ?_, fun h => absurd h hc⟩
+    simpa [processRecvPacket, hbig, v5DisconnectOrClose, psV5Disconnect, hc, hz, hE] using hp
+
+
+/-! ## (2) oversize stored packets -/
+
+def fits (c : C) (x : Nat × Pkt) : Bool := decide (x.2.sz c.cfg.pw ≤ c.s.mpsSend)
+
+theorem sendStoredLoop_store (l) (c : C) :
+    (sendStoredLoop c l).2 = l.filter (fits c) := by
+  induction l generalizing c with
+  | nil => rfl
+  | cons x rest ih =>
+    obtain ⟨id, p⟩ := x
     unfold sendStoredLoop
-    by_cases hsz : p.sz c.cfg.pw > c.s.mpsSend
-    · simp only [hsz, if_true]
-      generalize hc0 : ({ c with s := { c.s with puback := del id c.s.puback, pubrec := del id c.s.pubrec, pubcomp := del id c.s.pubcomp } } : C) = c0
-      have e1 : c0.s.mpsSend = c.s.mpsSend := by rw [← hc0]
-      have e2 : c0.cfg = c.cfg := by rw [← hc0]
-      have e3 : c0.ev = c.ev := by rw [← hc0]
-      have hr : (releaseIfUsed c0 id).s.mpsSend = c0.s.mpsSend ∧ (releaseIfUsed c0 id).cfg = c0.cfg ∧
-          ∃ t, (releaseIfUsed c0 id).ev = c0.ev ++ t ∧ ∀ e ∈ t, e = .released id := by
-        unfold releaseIfUsed releaseId
-        by_cases hu : isUsed c0.s id = true
-        · simp only [hu, if_true]
-          split <;> simp [C.setPanic]
-        · simp [hu]
-      obtain ⟨h1, h2, t1, ht1, hall⟩ := hr
-      obtain ⟨i1, i2, t2, ht2, hs2, hk2⟩ := ih (releaseIfUsed c0 id)
-      refine ⟨by rw [i1, h1, e1], by rw [i2, h2, e2], t1 ++ t2, by rw [ht2, ht1, e3, List.append_assoc], ?_, ?_⟩
-      · intro e he p' rel hep
-        rcases List.mem_append.1 he with h | h
-        · have := hall e h; rw [this] at hep; cases hep
-        · have := hs2 e h p' rel hep; rw [h1, h2, e1, e2] at this; exact this
-      · intro ip hip; have := hk2 ip hip; rw [h1, h2, e1, e2] at this; exact this
-    · simp only [hsz, if_false]
-      -- the counting step changes only `sendCount` / `panic`
-      generalize hc1 : (if c.s.sendMax.isSome = true then
-          (fun c : C => { c with s := { c.s with sendCount := (c.s.sendCount + 1) % 65536 } })
-            (if c.s.sendCount ≥ 65535 then c.setPanic "core.rs:send_stored:publish_send_count+=1" else c)
-        else c) = c1
-      have hc1' : c1.s.mpsSend = c.s.mpsSend ∧ c1.cfg = c.cfg ∧ c1.ev = c.ev := by
-        subst hc1
-        by_cases a : c.s.sendMax.isSome = true <;> by_cases b : c.s.sendCount ≥ 65535 <;>
-          simp [a, b, C.setPanic]
-      obtain ⟨g1, g2, g3⟩ := hc1'
-      obtain ⟨i1, i2, t2, ht2, hs2, hk2⟩ := ih (c1.push (.send p none))
-      simp only [push_s, push_cfg, push_ev] at i1 i2 ht2 hs2 hk2
-      refine ⟨by rw [i1, g1], by rw [i2, g2], [.send p none] ++ t2, ?_, ?_, ?_⟩
-      · rw [ht2, g3]; simp
-      · intro e he p' rel hep
-        rcases List.mem_append.1 he with h | h
-        · simp at h; subst h; cases hep; omega
-        · have := hs2 e h p' rel hep; rw [g1, g2] at this; exact this
-      · intro ip hip
-        rcases List.mem_cons.1 hip with h | h
-        · subst h; simp; omega
-        · have := hk2 ip h; rw [g1, g2] at this; exact this
+    split
+    · rename_i hz
+      have hf : fits c (id, p) = false := by simp [fits]; omega
+      rw [ih, List.filter_cons_of_neg (by simp [hf])]
+      apply List.filter_congr
+      intro x _
+      simp [fits]
+    · rename_i hz
+      have hf : fits c (id, p) = true := by simp [fits]; omega
+      simp only [ih, List.filter_cons_of_pos hf]
+      congr 1
+      apply List.filter_congr
+      intro x _
+      by_cases h1 : c.s.sendMax.isSome = true <;> by_cases h2 : c.s.sendCount ≥ 65535 <;>
+        simp [fits, h1, h2]
 
-/-- a v5.0 packet larger than the peer's limit is refused by the simple send paths: only an
-    error event, nothing sent -/
-theorem C14_oversize_refused_simple (c : C) (p : Pkt) (h : sizeOk c p = false) :
-    (psV5Simple c p).ev = c.ev ++ [.error eTooLarge] ∧ (psV5Puback c p).ev = c.ev ++ [.error eTooLarge] ∧
-    (psV5Pubrec c p).ev = c.ev ++ [.error eTooLarge] ∧ (psV5Auth c p).ev = c.ev ++ [.error eTooLarge] ∧
-    (psV5Disconnect c p).ev = c.ev ++ [.error eTooLarge] ∧ (psV5Connack c p).ev = c.ev ++ [.error eTooLarge] ∧
-    (psV5Connect c p).ev = c.ev ++ [.error eTooLarge] := by
-  simp [psV5Simple, psV5Puback, psV5Pubrec, psV5Auth, psV5Disconnect, psV5Connack, psV5Connect, h]
+/-- C14 (2a): after `send_stored` the store is exactly the entries that fit the peer's limit, in
+    order — every oversize entry is removed. -/
+theorem C14_oversize_stored_dropped (c : C) :
+    (sendStored c).s.store = c.s.store.filter (fits c) := by
+  rw [sendStored_eq]
+  simp only [sendStoredLoop_store]
+  apply List.filter_congr
+  intro x _
+  simp [fits]
 
-example : ∃ c : C, sizeOk c (mkV5Disconnect 0x95) = false :=
-  ⟨{ cfg := ⟨.server, 2⟩, s := { (St.init ⟨.server, 2⟩ 5) with mpsSend := 2 } }, by decide⟩
+/-- C14 (2b): `send_stored` requests sending only packets that fit: an oversize entry is not sent. -/
+theorem C14_oversize_stored_not_sent (c : C) :
+    ∀ q r, Ev.send q r ∈ (sendStored c).ev → Ev.send q r ∈ c.ev ∨ q.sz c.cfg.pw ≤ c.s.mpsSend := by
+  let P : Ev → Prop := fun e => e ∈ c.ev ∨ (match e with | .send q _ => q.sz c.cfg.pw ≤ c.s.mpsSend | _ => True)
+  have hP : Lax P := fun e he => by cases e <;> simp_all [Ev.passive, P]
+  have h0 : EvAll P c.ev := ⟨fun e he => .inl he⟩
+  have := sendStored_all hP c h0 (fun x _ hx => .inr hx)
+  intro q r hm
+  exact this.h _ hm
+
+theorem sendStoredLoop_mono (l) (c : C) (e : Ev) (he : e ∈ c.ev) : e ∈ (sendStoredLoop c l).1.ev := by
+  induction l generalizing c with
+  | nil => exact he
+  | cons x rest ih =>
+    obtain ⟨id, p⟩ := x
+    unfold sendStoredLoop
+    split
+    · refine ih _ ?_
+      unfold releaseIfUsed; split <;> simp [he]
+    · refine ih _ ?_
+      by_cases h1 : c.s.sendMax.isSome = true <;> by_cases h2 : c.s.sendCount ≥ 65535 <;> simp [h1, h2, he]
+
+/-- C14 (2c), partial: the oversize entry at the head of the store is dropped with its
+    identifier released when in use (`NotifyPacketIdReleased` is emitted).  For an entry further
+    down the store the same holds with "in use when the entry is reached"; relating that to the
+    state before the call needs the allocator invariant and is left as `…_full`. -/
+theorem C14_oversize_stored_released_partial (c : C) (id : Nat) (p : Pkt) (rest)
+    (hst : c.s.store = (id, p) :: rest) (hz : p.sz c.cfg.pw > c.s.mpsSend) (hu : isUsed c.s id = true) :
+    Ev.released id ∈ (sendStored c).ev := by
+  rw [sendStored_eq, hst, sendStoredLoop_over _ id p rest (by simpa using hz)]
+  refine sendStoredLoop_mono _ _ _ ?_
+  have hu' : isUsed (dropPrep (resetCount c) id).s id = true := by
+    have : (dropPrep (resetCount c) id).s.pidMan = c.s.pidMan := by
+      unfold dropPrep resetCount; split <;> rfl
+    simpa [isUsed, this] using hu
+  simp [releaseIfUsed, hu']
+
+def C14_oversize_stored_released_full : Prop :=
+  ∀ (c : C) (id : Nat) (p : Pkt), (id, p) ∈ c.s.store → p.sz c.cfg.pw > c.s.mpsSend →
+    isUsed c.s id = true → Ev.released id ∈ (sendStored c).ev
 
 end MqttVerif.Conn
